@@ -57,7 +57,7 @@ def gen_case(rng, quick):
         classes = list(range(300, 0, -1))
         subs = [s for s in range(0x400, 0x500)]
     ftid = rng.choice([None, None, rng.choice(tids), 0, 5, 999])
-    fproc = rng.choice([None, None, 'procA', '44', '7', '', 'nomatch', 'kernel_task'])
+    fproc = rng.choice([None, None, 'procA', '44', '7', '', 'nomatch', 'kernel_task', 'procA(44)', 'procA(7)', 'procB(300)', 'kernel_task(0)'])
     cfg = {'tid': ftid, 'process': fproc, 'classes': classes, 'subclasses': subs}
     recs = [D.record(u, [0, 0, 0, 0], t, e) for t, e, u in evs]
     if with_logs:
